@@ -22,8 +22,18 @@ Proof. induction h; cbn; [reflexivity|]. assumption. Qed.
 Lemma to_nat_blen {A} (l : list A) : Z.to_nat (blen l) = length l.
 Proof. unfold blen. apply Nat2Z.id. Qed.
 
+Lemma blen_app {A} (a b : list A) : blen (a ++ b) = blen a + blen b.
+Proof. unfold blen. rewrite app_length. lia. Qed.
+
+Lemma blen_nonneg {A} (a : list A) : 0 <= blen a.
+Proof. unfold blen. lia. Qed.
+
 Lemma split_at_app h r : split_at (blen h) (h ++ r) = Some (h, r).
-Proof. unfold split_at, blen. rewrite Nat2Z.id. apply take_app. Qed.
+Proof.
+  unfold split_at. rewrite blen_app. pose proof (blen_nonneg r).
+  replace (blen h + blen r <? blen h) with false by lia.
+  rewrite to_nat_blen. apply take_app.
+Qed.
 
 (* ------------------------------------------------------------------ fixed-width integers *)
 Lemma be_length n z : length (be n z) = n.
@@ -276,9 +286,22 @@ Proof.
     rewrite dec_uvarint_enc by lia.
     replace (k <=? prev) with false by lia.
     rewrite dec_uvarint_enc by (unfold blen in *; lia).
-    rewrite !to_nat_blen.
+    rewrite blen_app. pose proof (blen_nonneg (flat_map
+      (fun kv : Z * list Z => enc_uvarint (fst kv) ++ enc_uvarint (blen (snd kv)) ++ snd kv) l ++ r)).
+    rewrite Z.min_l by lia. rewrite !to_nat_blen.
     rewrite firstn_app_len, skipn_app_len.
     rewrite IH by (try assumption; lia). reflexivity.
+Qed.
+
+Lemma uv_enc_nonempty f v : (1 <= length (uv_enc f v))%nat.
+Proof. destruct f; cbn; [lia|]. destruct (_ =? _); cbn; lia. Qed.
+
+Lemma tagged_fields_length (l : list (Z * list Z)) :
+  (length l <= length (flat_map (fun kv => enc_uvarint (fst kv) ++ enc_uvarint (blen (snd kv)) ++ snd kv) l))%nat.
+Proof.
+  induction l as [|kv l IH]; cbn [flat_map length]; [lia|].
+  rewrite !app_length. unfold enc_uvarint at 1.
+  pose proof (uv_enc_nonempty 4 (Z.land (fst kv) 4294967295)). lia.
 Qed.
 
 Lemma dec_tagged_enc l r :
@@ -288,7 +311,10 @@ Proof.
   intros Hwt. apply andb_prop in Hwt as [Hlen Hwt].
   unfold dec_tagged, enc_tagged. rewrite <- app_assoc.
   rewrite dec_uvarint_enc by (unfold blen in *; lia).
-  unfold blen. rewrite Nat2Z.id.
+  pose proof (tagged_fields_length l) as Hfl.
+  match goal with |- (if ?c then _ else _) = _ => destruct c eqn:E end.
+  { exfalso. rewrite blen_app in E. unfold blen in E, Hfl. lia. }
+  rewrite to_nat_blen.
   assert (Hwt' : wt_tagged (-1) l = true).
   { destruct l as [|[k b] l]; [reflexivity|]. cbn [wt_tagged] in *.
     apply andb_prop in Hwt as [Hwt Hrest]. apply andb_prop in Hwt as [Hwt Hblen].
@@ -372,6 +398,38 @@ Proof.
   rewrite Ht by assumption. rewrite IH by assumption. reflexivity.
 Qed.
 
+Lemma rep_app d : forall n m bs,
+  rep d (n + m) bs = match rep d n bs with
+                     | Some (l1, r1) => match rep d m r1 with
+                                        | Some (l2, r2) => Some (l1 ++ l2, r2)
+                                        | None => None
+                                        end
+                     | None => None
+                     end.
+Proof.
+  induction n as [|n IH]; intros m bs.
+  - cbn. destruct (rep d m bs) as [[l r]|]; reflexivity.
+  - cbn [Nat.add rep]. destruct (d bs) as [[v r]|]; [|reflexivity].
+    rewrite IH. destruct (rep d n r) as [[l1 r1]|]; [|reflexivity].
+    destruct (rep d m r1) as [[l2 r2]|]; reflexivity.
+Qed.
+
+Lemma rep_pos_eq d : forall p bs, rep_pos d p bs = rep d (Pos.to_nat p) bs.
+Proof.
+  induction p as [p IH|p IH|]; intros bs.
+  - rewrite Pos2Nat.inj_xI. replace (2 * Pos.to_nat p)%nat with (Pos.to_nat p + Pos.to_nat p)%nat by lia.
+    cbn [rep_pos rep]. destruct (d bs) as [[v r0]|]; [|reflexivity].
+    rewrite rep_app, !IH. destruct (rep d (Pos.to_nat p) r0) as [[l1 r1]|]; [|reflexivity].
+    rewrite IH. destruct (rep d (Pos.to_nat p) r1) as [[l2 r2]|]; reflexivity.
+  - rewrite Pos2Nat.inj_xO. replace (2 * Pos.to_nat p)%nat with (Pos.to_nat p + Pos.to_nat p)%nat by lia.
+    cbn [rep_pos]. rewrite rep_app, !IH. destruct (rep d (Pos.to_nat p) bs) as [[l1 r1]|]; [|reflexivity].
+    rewrite IH. reflexivity.
+  - change (Pos.to_nat 1) with 1%nat. cbn [rep_pos rep]. destruct (d bs) as [[v r]|]; reflexivity.
+Qed.
+
+Lemma rep_z_eq d n bs : rep_z d n bs = rep d (Z.to_nat n) bs.
+Proof. destruct n; cbn [rep_z Z.to_nat]; try reflexivity. apply rep_pos_eq. Qed.
+
 Lemma fields_roundtrip fs : Forall rt fs -> forall l r,
   wt_fields fs l = true ->
   dec_fields fs (enc_fields fs l ++ r) = Some (l, r).
@@ -430,7 +488,7 @@ Proof.
     + cbn [wt] in Hwt. apply andb_prop in Hwt as [Hlen Hall].
       cbn [enc dec]. rewrite <- app_assoc. rewrite dec_i32 by (unfold blen in *; lia).
       replace (blen l =? -1) with false by (unfold blen; lia).
-      unfold blen. rewrite Nat2Z.id. rewrite rep_roundtrip by assumption. reflexivity.
+      rewrite rep_z_eq, to_nat_blen. rewrite rep_roundtrip by assumption. reflexivity.
     + cbn [enc dec]. rewrite dec_i32 by lia. reflexivity.
   - (* CompactArray *)
     destruct v as [| | | | |o|]; try discriminate. destruct o as [l|].
@@ -438,7 +496,7 @@ Proof.
       cbn [enc dec]. rewrite <- app_assoc. rewrite dec_uvarint_enc by (unfold blen in *; lia).
       replace (blen l + 1 - 1) with (blen l) by lia.
       replace (blen l =? -1) with false by (unfold blen; lia).
-      unfold blen. rewrite Nat2Z.id. rewrite rep_roundtrip by assumption. reflexivity.
+      rewrite rep_z_eq, to_nat_blen. rewrite rep_roundtrip by assumption. reflexivity.
     + cbn [enc dec]. rewrite dec_uvarint_enc by lia. reflexivity.
   - (* Schema *)
     destruct v as [| | | | | |l]; try discriminate.
